@@ -166,9 +166,9 @@ int poison_kind(Ctx& c, std::uint64_t point_hash)
         if ((h & 0xffffffffULL) < c.poison_q)
         {
             // pick one of the enabled kinds
-            int kinds[5];
+            int kinds[6];
             int n = 0;
-            for (int k = 0; k != 5; ++k)
+            for (int k = 0; k != 6; ++k)
             {
                 if (c.poison_mask & (1u << k)) kinds[n++] = 1 << k;
             }
@@ -213,6 +213,9 @@ void ChannelMap::build(Plan const& p)
     // the enabled channels to cover the hypercube.
     bool const restricted = p.scn != "lattice" && (mix2(p.mseed, 999) % 3 == 0);
     singular = p.scn != "lattice" && (mix2(p.mseed, 998) % 5 == 0);
+    // some maps compute the densities together with the coordinates and do nothing but return the
+    // jacobian when asked for densities (the documented alternative)
+    early = (mix2(p.mseed, 997) % 4 == 0);
     for (std::uint64_t c = 1; restricted && c < chan; ++c)
     {
         std::uint64_t const h = mix2(p.mseed, 5000 + c);
